@@ -1,7 +1,8 @@
 (* C16 — I/O per cursor operation is bounded by index depth, not by file size.  Statements only.
-   Proved so far: opening consults only the last 22 bytes.  The bound 2*(levels+2) on block loads per
-   operation is checked on every operation of every generated history (implementation loads <= model
-   loads <= bound); its proof needs the reader refinement R. *)
+   Opening consults only the last 22 bytes; reset and current touch no block; every specified operation
+   from every state of every well-formed store loads at most 2*(levels+2) blocks (C16_loads, from the
+   refinement R), hence also on every written file (C16_written_file_loads).  The correspondence
+   counts the implementation's absolute seeks per operation and its reads during open. *)
 From Grenad.model Require Import Base Block Trailer Reader.
 From Grenad.proofs Require Import SpecProofs.
 
